@@ -194,13 +194,16 @@ Definition to_first_order (c : cfg) (m : mesh) : option mesh :=
 (* facets: per output type (tri / quad / polygon index) the rows of node
    *positions* returned by extract_surface, resp. of node ids returned by
    extract_facets; the facet extraction itself belongs to C10 *)
-Definition renumber (groups : list (nat * list conn)) : @blocks conn :=
-  snd (fold_left (fun acc g =>
-                    let '(start, out) := acc in
-                    let n := length (snd g) in
-                    (start + Z.of_nat n,
-                     out ++ [(fst g, combine (map (fun k => start + Z.of_nat k) (seq 1 n)) (snd g))]))
-                 groups (0%Z, [])).
+Fixpoint renumber_from (start : Z) (groups : list (nat * list conn)) : @blocks conn :=
+  match groups with
+  | [] => []
+  | g :: r =>
+      let n := length (snd g) in
+      (fst g, combine (map (fun k => start + Z.of_nat k)%Z (seq 1 n)) (snd g))
+        :: renumber_from (start + Z.of_nat n) r
+  end.
+(* FEMElementalAttribute._generate_surface: ids 1..k running over the groups *)
+Definition renumber (groups : list (nat * list conn)) : @blocks conn := renumber_from 0 groups.
 
 Definition positions_to_ids (t : table V) (row : list nat) : option conn :=
   mapM (fun k => nth_error (ids t) k) row.
